@@ -404,6 +404,7 @@ pub struct Interp {
     known_subs: Vec<String>,
     known_topics: Vec<String>,
     cfg: RunCfg,
+    gate: Arc<Notify>,
 }
 
 async fn yields(n: usize) {
@@ -775,7 +776,8 @@ impl Interp {
                 }
             }
         }
-        self.sh.lock().unwrap().push(EvKind::Qp { stats });
+        let stalled = deltio::verif::stalled_count();
+        self.sh.lock().unwrap().push(EvKind::Qp { stats, stalled });
     }
 
     async fn pull_all(&mut self, op: usize, sub: String, ack: bool) {
@@ -1195,6 +1197,10 @@ impl Interp {
             Op::Snapshot => {
                 self.snapshot().await;
             }
+            Op::ReleaseStalls => {
+                self.gate.notify_waiters();
+                yields(2).await;
+            }
             Op::CheckLists => {
                 for t in self.known_topics.clone() {
                     self.run_call(i, Req::ListTopicSubs { topic: t, size: 1000, token: String::new() }, vec![], false)
@@ -1317,6 +1323,9 @@ impl Interp {
 
     async fn finale(&mut self, n_ops: usize) {
         self.settle().await;
+        // nothing stays stalled beyond the generated history
+        self.gate.notify_waiters();
+        yields(2).await;
         if self.cfg.horizon {
             // streams never terminate by themselves; keeping them open would only make them
             // cycle through redeliveries for the whole hour
@@ -1397,6 +1406,40 @@ pub fn push_variant(v: u8) -> Option<PushReq> {
 
 static PANICS: Mutex<Vec<String>> = Mutex::new(Vec::new());
 
+/// Wall-clock start (ms since process start, +1) of the case currently being simulated; 0 = none.
+static CASE_STARTED: std::sync::atomic::AtomicU64 = std::sync::atomic::AtomicU64::new(0);
+static PROCESS_START: std::sync::OnceLock<std::time::Instant> = std::sync::OnceLock::new();
+
+pub const EXIT_NEVER_QUIESCENT: i32 = 98;
+
+/// Starts a watchdog thread. Under the paused clock a simulated case needs milliseconds of
+/// real time; one that is still running after `limit_s` seconds is spinning: some server task
+/// keeps itself runnable forever, the system never becomes quiescent and virtual time cannot
+/// advance. The process then exits with EXIT_NEVER_QUIESCENT and the supervisor takes the
+/// in-flight case as the failing input.
+pub fn install_watchdog(limit_s: u64) {
+    let start = *PROCESS_START.get_or_init(std::time::Instant::now);
+    std::thread::spawn(move || loop {
+        std::thread::sleep(std::time::Duration::from_millis(200));
+        let began = CASE_STARTED.load(std::sync::atomic::Ordering::SeqCst);
+        if began != 0 {
+            let now = start.elapsed().as_millis() as u64 + 1;
+            if now.saturating_sub(began) > limit_s * 1000 {
+                eprintln!("watchdog: the simulated system did not become quiescent within {} s of real time", limit_s);
+                std::process::exit(EXIT_NEVER_QUIESCENT);
+            }
+        }
+    });
+}
+
+fn arm_watchdog() {
+    let start = *PROCESS_START.get_or_init(std::time::Instant::now);
+    CASE_STARTED.store(start.elapsed().as_millis() as u64 + 1, std::sync::atomic::Ordering::SeqCst);
+}
+fn disarm_watchdog() {
+    CASE_STARTED.store(0, std::sync::atomic::Ordering::SeqCst);
+}
+
 pub fn install_panic_hook() {
     std::panic::set_hook(Box::new(|info| {
         let s = format!("{}", info);
@@ -1446,6 +1489,7 @@ async fn normalise_phase(phase_us: u32) -> bool {
 
 pub fn run_case(case: &Case, cfg: &RunCfg) -> Trace {
     PANICS.lock().unwrap().clear();
+    arm_watchdog();
     let mut seed_bytes = case.sched_seed.to_le_bytes().to_vec();
     seed_bytes.extend_from_slice(b"deltio-verif");
     let rt = tokio::runtime::Builder::new_current_thread()
@@ -1470,7 +1514,7 @@ pub fn run_case(case: &Case, cfg: &RunCfg) -> Trace {
             specs
                 .iter()
                 .filter(|s| s.point as usize % POINT_NAMES.len() == idx && s.nth as u32 == nth)
-                .map(|s| s.yields as u32)
+                .map(|s| if s.yields == 255 { u32::MAX } else { s.yields as u32 })
                 .max()
                 .unwrap_or(0)
         }));
@@ -1479,6 +1523,8 @@ pub fn run_case(case: &Case, cfg: &RunCfg) -> Trace {
     let cfg2 = cfg.clone();
     let trace = rt.block_on(async move {
         let phase_ok = normalise_phase(case.phase_us).await;
+        let gate = Arc::new(Notify::new());
+        deltio::verif::set_stall_gate(Some(gate.clone()));
         let app = Arc::new(Deltio::new());
         let routes: Routes = app.server_builder().into_service();
         let sh = Arc::new(Mutex::new(Shared {
@@ -1501,6 +1547,7 @@ pub fn run_case(case: &Case, cfg: &RunCfg) -> Trace {
             known_subs: Vec::new(),
             known_topics: Vec::new(),
             cfg: cfg2,
+            gate: gate.clone(),
         };
         for (i, op) in case.ops.iter().enumerate() {
             it.step(i, op).await;
@@ -1521,9 +1568,11 @@ pub fn run_case(case: &Case, cfg: &RunCfg) -> Trace {
     });
     drop(rt);
     deltio::verif::clear_controller();
+    deltio::verif::set_stall_gate(None);
     deltio::verif::set_fanout_seed(None);
     let mut trace = trace;
     trace.point_hits = hits.lock().unwrap().clone();
     trace.panics = PANICS.lock().unwrap().clone();
+    disarm_watchdog();
     trace
 }
